@@ -320,8 +320,8 @@ func main() {
 		if i%6 == 4 {
 			mangle = 0
 		}
-		// every third random case (both layouts over six cases) has schema arguments, parameters and locals that shadow
-		// the packages the resolver template reserves
+		// half of the random cases (i%6 in {1, 4}: follow, 2: single) have schema arguments, parameters and locals that
+		// shadow the packages the resolver template reserves
 		shadow := 0
 		if i%3 == 1 || i%6 == 2 {
 			shadow = 60
